@@ -1,6 +1,8 @@
 package web
 
 import (
+	"encoding/base64"
+	"errors"
 	"github.com/bolkedebruin/rdpgw/cmd/rdpgw/identity"
 	"github.com/gorilla/sessions"
 	"log"
@@ -44,6 +46,13 @@ func InitStore(sessionKey []byte, encryptionKey []byte, storeType string, maxLen
 }
 
 func GetSession(r *http.Request) (*sessions.Session, error) {
+	// the store decodes leniently: a cookie with changed padding bits in its last
+	// character would be taken for the one that was issued
+	if c, err := r.Cookie(rdpGwSession); err == nil {
+		if _, err := base64.URLEncoding.Strict().DecodeString(c.Value); err != nil {
+			return nil, errors.New("malformed session cookie")
+		}
+	}
 	session, err := sessionStore.Get(r, rdpGwSession)
 	if err != nil {
 		return nil, err
